@@ -19,6 +19,7 @@ Decided (DESIGN.md C27, E.3), all on type-checked HIR / call facts of kanidmd_li
  K3-validity        AuthSession::new / new_reauth build a non-denied session state only under is_within_valid_time().
 Not decided: correctness of the verifiers themselves (Password::verify, TOTP, webauthn), the badlist test at login.
 """
+import re
 from .lib.hir import *
 from .lib.x_g6auth import *
 from .lib import pathcond as pc
@@ -133,6 +134,31 @@ def verify_receiver_structs(site):
                 if r.get("e") == "field":
                     out.add(r.get("xty", ""))
     return out
+
+
+GENERIC_VERIFIER = re.compile(r"^(verify\w*|finish_\w*authentication)$")
+
+
+def generic_verifier(site):
+    def callee_name(leaf):
+        for t in pc.leaf_tokens(leaf):
+            if t.startswith("call:") and GENERIC_VERIFIER.match(t.rsplit("::", 1)[-1]):
+                return t[5:]
+        return None
+    for _, leaf in site.leaves(True, ("expr",)):
+        t = pc.leaf_tokens(leaf)
+        if callee_name(leaf) and "lit:true" not in t and not has_token(t, "op", "||", "!=", "=="):
+            return short(callee_name(leaf))
+    for _, leaf in site.leaves(True, ("arm", "let")):
+        pat = leaf[2][1] if leaf[1] == "arm" else leaf[2][0]
+        scr = leaf[2][0] if leaf[1] == "arm" else leaf[2][1]
+        nm = None
+        for t in tokens(scr):
+            if t.startswith("call:") and GENERIC_VERIFIER.match(t.rsplit("::", 1)[-1]):
+                nm = t[5:]
+        if nm and all(pat_def(x) in ("core::result::Result::Ok", "core::option::Option::Some") for x in top_alternatives(pat)):
+            return short(nm)
+    return None
 
 
 def auth_type_of(node):
@@ -311,6 +337,12 @@ def run(ctx):
                     and s.holds(True, lambda l: unwrap(l[2]).get("e") == "bin" and unwrap(l[2]).get("op") == "=="
                                 and leaf_has(l, "field", "user_sub"), ("expr",))):
                 alts.append("oauth2-introspection-accepted")
+            if not alts:
+                # a verifier this table does not know by def-path: accept the success branch of a call named verify*/finish_*authentication
+                # (bool taken true, or its Ok/Some arm); the callee is shown so that a reviewer sees which verifier was trusted
+                gen = generic_verifier(s)
+                if gen:
+                    alts.append("verifier:" + gen)
             ok = bool(alts)
             why = ""
             if two_factor_ctx:
